@@ -1,6 +1,7 @@
 #!/bin/bash
 # usage: try_patch.sh <patch.diff> <prop> [<prop>...] : apply to /repo, run quick checks, always revert
 patch="$1"; shift
+exec 9>/tmp/agilint_repo.lock; flock 9   # one user of /repo at a time
 cd /repo || exit 9
 if [ -n "$(git status --porcelain --untracked-files=no)" ]; then echo "REPO DIRTY"; exit 9; fi
 git apply "$patch" || { echo "PATCH DOES NOT APPLY"; exit 9; }
